@@ -205,6 +205,11 @@ theorem C09_tree_order {κ ν : Type} {P : κ → Prop} {c : κ → κ → Int} 
     (hP : ∀ q ∈ kvs, P q.1) : Descending c (treeOf c kvs) :=
   treeOf_descending h kvs hP
 
+/-- … and every key that was set is found again: the iteration sequence holds a key that compares equal to it -/
+theorem C09_tree_finds_every_key {κ ν : Type} {P : κ → Prop} {c : κ → κ → Int} (h : LawfulCmpOn P c) (kvs : List (κ × ν))
+    (hP : ∀ q ∈ kvs, P q.1) : ∀ p ∈ kvs, ∃ q ∈ treeOf c kvs, c q.1 p.1 = 0 :=
+  treeOf_finds h kvs hP
+
 example : treeOf intCmp [((1 : BitVec 64), 10), (BitVec.ofNat 64 (2^32), 20), (1, 30), (0, 40)]
     = [(BitVec.ofNat 64 (2^32), 20), (1, 30), (0, 40)] := by decide
 
